@@ -23,8 +23,8 @@ RULE = (
     "condition; distinct_nontrivial = distinct (machine, engine, canonical state) triples"
 )
 BOUNDS = {
-    "quick": "TREE(N<=4) x {sync, async}; FOLLOW(N<=3) x {sync, async}; TIMED(N<=3) frame slice",
-    "thorough": "TREE(N<=5) x {sync, async}; FOLLOW(N<=4) x {sync, async}; TIMED(N<=4) frame slice",
+    "quick": "TREE(N<=4) + 9 parallel skeletons + 4 irregular larger trees (10-16 states) x {sync, async}; FOLLOW(N<=3) x {sync, async}; TIMED(N<=3) frame slice",
+    "thorough": "TREE(N<=5) + 54 parallel skeletons + 10 irregular larger trees x {sync, async}; FOLLOW(N<=4) x {sync, async}; TIMED(N<=4) frame slice",
 }
 ASSUMPTIONS = [
     "for always/onDone follow-up microsteps only consistency of the event within one transition is required "
@@ -37,7 +37,8 @@ PAYLOAD_N = 7
 
 def units(tier: str) -> List[Any]:
     n = 4 if tier == "quick" else 5
-    us: List[Any] = [("tree", t) for t in F.trees_upto(n)] + [("tree", t) for t in F.par_skeletons(tier)]
+    us: List[Any] = [("tree", t) for t in F.big_skeletons(tier)]   # the large units first
+    us += [("tree", t) for t in F.trees_upto(n)] + [("tree", t) for t in F.par_skeletons(tier)]
     us += [("follow", spec) for spec in follow.specs(3 if tier == "quick" else 4)]
     return us
 
